@@ -98,14 +98,12 @@ theorem rVarsAt_eq (root : Val) (env : Env) (gs vs : Fields) (h : dget "vars" gs
     · simp [dget, hk] at h
       cases w <;> simp [rVarsAt, hk, ih h]
 
-/-- the variables of a `$let`, all present: the same bindings on both sides -/
+/-- the variables of a `$let`: the same bindings on both sides, missing values included -/
 theorem vars_agree (c : Ctx) (root : Val) (env : Env) (hr : EnvRel c root env) (vs : Fields)
     (hsub : AllSubFields Agrees vs) (h : rFields root env vs = []) :
-    ∃ bs : Env, sVars root env vs = .ok bs ∧
-      (bs.any (fun b => b.2.isNone) = false →
-        ∃ xs : Fields, evalVars c vs = .ok (some xs) ∧ bs = xs.map (fun kv => (kv.1, some kv.2))) := by
+    ∃ bs : Env, sVars root env vs = .ok bs ∧ evalVars c vs = .ok bs := by
   induction vs with
-  | nil => exact ⟨[], rfl, fun _ => ⟨[], rfl, rfl⟩⟩
+  | nil => exact ⟨[], rfl, rfl⟩
   | cons kv r ih =>
     obtain ⟨k, v⟩ := kv
     simp only [AllSubFields] at hsub
@@ -114,24 +112,17 @@ theorem vars_agree (c : Ctx) (root : Val) (env : Env) (hr : EnvRel c root env) (
       simp only [rFields, List.append_eq_nil_iff] at h; exact h.2
     obtain ⟨x, hx⟩ := okReasons_nil _ hkv.1
     have he := hsub.1.self c root env hr hkv.2 hkv.1
-    obtain ⟨bs, hb, hrest'⟩ := ih hsub.2 hrest
-    refine ⟨(k, x) :: bs, by simp [sVars, hx, hb, bind, Except.bind, pure, Except.pure], ?_⟩
-    intro hnone
-    simp only [List.any_cons, Bool.or_eq_false_iff] at hnone
-    obtain ⟨xs, h1, h2⟩ := hrest' hnone.2
-    cases x with
-    | none => simp at hnone
-    | some y =>
-      exact ⟨(k, y) :: xs, by simp [evalVars, he, hx, h1, bind, Except.bind, pure, Except.pure],
-        by simp [h2]⟩
+    obtain ⟨bs, hb, hb'⟩ := ih hsub.2 hrest
+    exact ⟨(k, x) :: bs, by simp [sVars, hx, hb, bind, Except.bind, pure, Except.pure],
+      by simp [evalVars, he, hx, hb', bind, Except.bind, pure, Except.pure]⟩
 
-theorem EnvRel.bindAll {c : Ctx} {root : Val} {env : Env} (h : EnvRel c root env) (xs : Fields) :
-    EnvRel (c.bindAll xs) root ((xs.map (fun kv => (kv.1, some kv.2))).reverse ++ env) := by
-  induction xs generalizing c env with
+theorem EnvRel.bindAll {c : Ctx} {root : Val} {env : Env} (h : EnvRel c root env) (bs : Env) :
+    EnvRel (c.bindAll bs) root (bs.reverse ++ env) := by
+  induction bs generalizing c env with
   | nil => simpa [Ctx.bindAll] using h
   | cons kv r ih =>
     obtain ⟨k, v⟩ := kv
-    have := ih (h.bind k v)
+    have := ih (h.bindOpt k v)
     simpa [Ctx.bindAll, List.reverse_cons, List.append_assoc] using this
 
 end MongoModel.Proofs.C04
